@@ -490,6 +490,9 @@ def _parse_tensordot_axes_to_matmul(axes, shape_a, shape_b):
         axes_b = tuple(range(axes))
     else:
         axes_a, axes_b = axes
+        # negative axes count from the end, as for numpy.tensordot
+        axes_a = tuple(ax + ndim_a if ax < 0 else ax for ax in axes_a)
+        axes_b = tuple(ax + ndim_b if ax < 0 else ax for ax in axes_b)
 
     num_con = len(axes_a)
     if num_con != len(axes_b):
